@@ -338,13 +338,13 @@ def afterTwo (s : State) (i : Submit) : State :=
 
 theorem submitOne_spec (s : State) (i : Submit) (t : Task) (cur : Int) :
     ((submitOne s i t cur).1 = s ∧ (submitOne s i t cur).2 ≠ "ok") ∨
-    (KV.has s.results (i.op, i.taskAddr, i.id) = false ∧ i.sig.isSome = true ∧ i.respHash = "" ∧
+    (KV.has s.results (i.op, i.taskAddr, i.id) = false ∧ (norm i.sig).isSome = true ∧ i.respHash = "" ∧
       i.response = none ∧ phase1TooLate cur t.startingEpoch t.resp = false ∧
       submitOne s i t cur = (afterOne s i, "ok")) := by
   unfold submitOne
   by_cases h1 : KV.has s.results (i.op, i.taskAddr, i.id) = true
   · left; simp [h1]
-  by_cases h2 : i.sig.isNone = true
+  by_cases h2 : (norm i.sig).isNone = true
   · left; simp [h1, h2]
   by_cases h3 : (decide (i.respHash ≠ "") || i.response.isSome) = true
   · left; simp only [h1, h2, h3]; simp [*]
@@ -356,7 +356,7 @@ theorem submitOne_spec (s : State) (i : Submit) (t : Task) (cur : Int) :
       Option.isSome_eq_false_iff, Option.isNone_iff_eq_none] at h3
     exact h3
   refine ⟨by simpa using h1, ?_, h3'.1, h3'.2, by simpa using h4, ?_⟩
-  · cases hs : i.sig <;> simp_all
+  · cases hs : norm i.sig <;> simp_all
   · simp only [h1, h2, h3, h4]; simp [afterOne]
 
 theorem submitTwo_spec (s : State) (i : Submit) (t : Task) (cur : Int) :
@@ -477,7 +477,6 @@ theorem challengeCore_spec (s : State) (c : Challenge) (t : Task) :
 /-- inversion of RaiseAndResolveChallenge -/
 theorem challenge_spec (s : State) (c : Challenge) :
     ((challenge s c).1 = s ∧ (challenge s c).2 ≠ "ok") ∨
-    (∃ task, KV.find? s.tasks (c.taskAddr, c.id) = some task ∧ task.hash ≠ c.taskHash ∧ challenge s c = (s, "ok")) ∨
     (∃ task res resp, KV.find? s.tasks (c.taskAddr, c.id) = some task ∧ task.hash = c.taskHash ∧
       KV.find? s.results (c.op, c.taskAddr, c.id) = some res ∧ res.response = some resp ∧
       challenge s c = challengeCore s c task) := by
@@ -486,21 +485,20 @@ theorem challenge_spec (s : State) (c : Challenge) :
   | none => left; simp
   | some task =>
     by_cases h1 : task.hash ≠ c.taskHash
-    · right; left; exact ⟨task, rfl, h1, by simp [h1]⟩
+    · left; simp [h1]
     cases hr : KV.find? s.results (c.op, c.taskAddr, c.id) with
     | none => left; simp only [h1]; simp [*]
     | some res =>
       cases hresp : res.response with
       | none => left; simp only [h1, hresp]; simp [*]
       | some resp =>
-        right; right
+        right
         exact ⟨task, res, resp, rfl, by simpa using h1, rfl, hresp, by simp only [h1, hresp]; simp⟩
 
 theorem challenge_cases (s : State) (c : Challenge) :
     (challenge s c).1 = s ∨ challenge s c = (afterChallenge s c, "ok") := by
-  rcases challenge_spec s c with ⟨h, _⟩ | ⟨_, _, _, h⟩ | ⟨task, _, _, _, _, _, _, h⟩
+  rcases challenge_spec s c with ⟨h, _⟩ | ⟨task, _, _, _, _, _, _, h⟩
   · left; exact h
-  · left; rw [h]
   · rcases challengeCore_spec s c task with ⟨h2, _⟩ | ⟨_, _, _, h2⟩
     · left; rw [h, h2]
     · right; rw [h, h2]
@@ -517,7 +515,7 @@ theorem epochEnd_frame (s : State) (id : String) (n : Int) (pw : Powers) :
     s'.avss = s.avss ∧ s'.taskNum = s.taskNum ∧ s'.created = s.created ∧ s'.results = s.results ∧
     s'.accepted1 = s.accepted1 ∧ s'.challenges = s.challenges ∧ s'.challenged = s.challenged ∧
     s'.pubkeys = s.pubkeys ∧ s'.operators = s.operators ∧ s'.opted = s.opted := by
-  unfold epochEnd; split <;> simp
+  unfold epochEnd; simp
 
 end ExoVerif.Avs
 
@@ -782,8 +780,7 @@ theorem chInv_after (s : State) (c : Challenge) (hi : ChInv s)
     · subst hk; simp
 
 theorem chInv_challenge (s : State) (c : Challenge) (hi : ChInv s) : ChInv (challenge s c).1 := by
-  rcases challenge_spec s c with ⟨h, _⟩ | ⟨_, _, _, h⟩ | ⟨task, _, _, _, _, _, _, h⟩
-  · rw [h]; exact hi
+  rcases challenge_spec s c with ⟨h, _⟩ | ⟨task, _, _, _, _, _, _, h⟩
   · rw [h]; exact hi
   · rcases challengeCore_spec s c task with ⟨h2, _⟩ | ⟨_, hn, _, h2⟩
     · rw [h, h2]; exact hi
@@ -816,14 +813,7 @@ end ExoVerif.Avs
 namespace ExoVerif.Avs
 open ExoVerif
 
-/-! ## the epoch hook does not panic as long as no empty-but-present signature was submitted -/
-
-/-- operations that never carry an empty-but-present BLS signature -/
-def Op.sigWf : Op → Prop
-  | .submit i => i.sig ≠ some ""
-  | _ => True
-
-instance (o : Op) : Decidable o.sigWf := by cases o <;> simp only [Op.sigWf] <;> infer_instance
+/-! ## every stored result carries a signature; no operation panics -/
 
 def SigInv (s : State) : Prop := ∀ p ∈ s.results, p.2.sig.isSome = true
 
@@ -836,7 +826,7 @@ theorem norm_isSome (x : Option String) (h1 : x.isSome = true) (h2 : x ≠ some 
     · rename_i heq; exact absurd heq h2
     · simp
 
-theorem sigInv_submit (s : State) (i : Submit) (hr : ResInv s) (hi : SigInv s) (hw : i.sig ≠ some "") :
+theorem sigInv_submit (s : State) (i : Submit) (hr : ResInv s) (hi : SigInv s) :
     SigInv (submit s i).1 := by
   rcases submit_spec s i with ⟨h, _⟩ | ⟨_, _, _, task, cur, _, _, h | h⟩
   · rw [h]; exact hi
@@ -845,7 +835,7 @@ theorem sigInv_submit (s : State) (i : Submit) (hr : ResInv s) (hi : SigInv s) (
     · rw [h.2, h2]
       intro p hp
       rcases KV.mem_set _ _ _ _ hr.1 hp with hq | ⟨hq, _⟩
-      · subst hq; exact norm_isSome _ hsig hw
+      · subst hq; exact hsig
       · exact hi p hq
   · rcases submitTwo_spec s i task cur with ⟨h2, _⟩ | ⟨_, ⟨res, hf, hs⟩, _, _, _, _, h2⟩
     · rw [h.2, h2]; exact hi
@@ -860,7 +850,7 @@ theorem sigInv_submit (s : State) (i : Submit) (hr : ResInv s) (hi : SigInv s) (
 theorem sigInv_congr {s s' : State} (h1 : s'.results = s.results) (hi : SigInv s) : SigInv s' := by
   unfold SigInv at *; rw [h1]; exact hi
 
-theorem sigInv_step (s : State) (o : Op) (hr : ResInv s) (hi : SigInv s) (hw : o.sigWf) : SigInv (step s o).1 := by
+theorem sigInv_step (s : State) (o : Op) (hr : ResInv s) (hi : SigInv s) : SigInv (step s o).1 := by
   unfold step
   split
   · exact hi
@@ -871,7 +861,7 @@ theorem sigInv_step (s : State) (o : Op) (hr : ResInv s) (hi : SigInv s) (hw : o
     | opt d a op avs u => exact sigInv_congr (optAction_frame s d a op avs u).2.2.2.1 hi
     | task p => exact sigInv_congr (createTask_frame s p).2.1 hi
     | bls op pk ok => exact sigInv_congr (regBLS_frame s op pk ok).2.2.2.1 hi
-    | submit i => exact sigInv_submit s i hr hi hw
+    | submit i => exact sigInv_submit s i hr hi
     | challenge c => exact sigInv_congr (challenge_frame s c).2.2.2.1 hi
     | epochEnd id n pw => exact sigInv_congr (epochEnd_frame s id n pw).2.2.2.1 hi
 
@@ -892,30 +882,11 @@ theorem statTask_isSome (s : State) (pw : Powers) (t : Task) (hi : SigInv s) (hh
     simp at hm
   · simp
 
-theorem statGo_isSome (s : State) (pw : Powers) (l tasks : List ((Addr × Nat) × Task))
-    (h : ∀ kt ∈ l, (statTask s pw kt.2).isSome = true) : (statGo s pw l tasks).isSome = true := by
-  induction l generalizing tasks with
-  | nil => simp [statGo]
-  | cons kt rest ih =>
-    obtain ⟨k, t⟩ := kt
-    have h1 := h (k, t) (by simp)
-    simp only [statGo]
-    cases hs : statTask s pw t with
-    | none => simp [hs] at h1
-    | some t' => exact ih _ (fun kt hkt => h kt (by simp [hkt]))
+theorem epochEnd_halted (s : State) (id : String) (n : Int) (pw : Powers) :
+    (epochEnd s id n pw).1.halted = s.halted := by
+  unfold epochEnd; rfl
 
-theorem epochEnd_no_halt (s : State) (id : String) (n : Int) (pw : Powers) (hi : SigInv s) (hh : s.halted = false) :
-    (epochEnd s id n pw).1.halted = false := by
-  unfold epochEnd
-  have := statGo_isSome s pw (dueTasks s id n) s.tasks (by
-    intro kt hkt
-    simp only [dueTasks, List.mem_filter, Bool.and_eq_true] at hkt
-    exact statTask_isSome s pw kt.2 hi hkt.2.2)
-  cases hg : statGo s pw (dueTasks s id n) s.tasks with
-  | none => simp [hg] at this
-  | some tasks => simpa using hh
-
-theorem halted_step (s : State) (o : Op) (hi : SigInv s) (hh : s.halted = false) : (step s o).1.halted = false := by
+theorem halted_step (s : State) (o : Op) (hh : s.halted = false) : (step s o).1.halted = false := by
   unfold step
   split
   · exact hh
@@ -928,16 +899,17 @@ theorem halted_step (s : State) (o : Op) (hi : SigInv s) (hh : s.halted = false)
     | bls op pk ok => show (regBLS s op pk ok).1.halted = false; rw [(regBLS_frame s op pk ok).2.2.2.2.2.2.2.1]; exact hh
     | submit i => show (submit s i).1.halted = false; rw [(submit_frame s i).2.2.2.2.2.1]; exact hh
     | challenge c => show (challenge s c).1.halted = false; rw [(challenge_frame s c).2.2.2.2.2.1]; exact hh
-    | epochEnd id n pw => exact epochEnd_no_halt s id n pw hi hh
+    | epochEnd id n pw => show (epochEnd s id n pw).1.halted = false; rw [epochEnd_halted]; exact hh
 
-theorem no_halt_run (ops : List Op) (s : State) (hr : ResInv s) (hi : SigInv s) (hh : s.halted = false)
-    (hw : ∀ o ∈ ops, o.sigWf) : (run s ops).halted = false := by
+theorem no_halt_run (ops : List Op) (s : State) (hh : s.halted = false) : (run s ops).halted = false := by
   induction ops generalizing s with
   | nil => exact hh
-  | cons o rest ih =>
-    simp only [run]
-    exact ih _ (resInv_step s o hr) (sigInv_step s o hr hi (hw o (by simp))) (halted_step s o hi hh)
-      (fun o' ho' => hw o' (by simp [ho']))
+  | cons o rest ih => simp only [run]; exact ih _ (halted_step s o hh)
+
+theorem sigInv_run (ops : List Op) (s : State) (hr : ResInv s) (hi : SigInv s) : SigInv (run s ops) := by
+  induction ops generalizing s with
+  | nil => exact hi
+  | cons o rest ih => simp only [run]; exact ih _ (resInv_step s o hr) (sigInv_step s o hr hi)
 
 /-! ## opt-in -/
 
@@ -945,7 +917,7 @@ theorem optInCore_spec (s : State) (op : String) (avs : Addr) (u : Option Int) (
     (h1 : e1 ≠ "ok") (h2 : e2 ≠ "ok") :
     ((optInCore s op avs u e1 e2).1 = s ∧ (optInCore s op avs u e1 e2).2 ≠ "ok") ∨
     (op ∈ s.operators ∧ ∃ a usd, KV.find? s.avss avs = some a ∧ u = some usd ∧ isOptedIn s op avs = false ∧
-      toI64 a.minSelf * PREC ≤ usd ∧
+      (a.minSelf : Int) * PREC ≤ usd ∧
       optInCore s op avs u e1 e2 = ({ s with opted := KV.set s.opted (op, avs) true }, "ok")) := by
   unfold optInCore
   by_cases c1 : op ∈ s.operators
@@ -958,7 +930,7 @@ theorem optInCore_spec (s : State) (op : String) (avs : Addr) (u : Option Int) (
     cases hu : u with
     | none => left; simp [c1, c2]
     | some usd =>
-      by_cases c3 : usd < toI64 a.minSelf * PREC
+      by_cases c3 : usd < (a.minSelf : Int) * PREC
       · left; simp [c1, c2, c3]
       · right
         refine ⟨c1, a, usd, rfl, rfl, by simpa using c2, by omega, ?_⟩
@@ -967,7 +939,7 @@ theorem optInCore_spec (s : State) (op : String) (avs : Addr) (u : Option Int) (
 theorem optAction_optin_spec (s : State) (d : Bool) (op : String) (avs : Addr) (u : Option Int) :
     ((optAction s d 1 op avs u).1 = s ∧ (optAction s d 1 op avs u).2 ≠ "ok") ∨
     (op ∈ s.operators ∧ ∃ a usd, KV.find? s.avss avs = some a ∧ u = some usd ∧ isOptedIn s op avs = false ∧
-      toI64 a.minSelf * PREC ≤ usd ∧
+      (a.minSelf : Int) * PREC ≤ usd ∧
       optAction s d 1 op avs u = ({ s with opted := KV.set s.opted (op, avs) true }, "ok")) := by
   unfold optAction
   by_cases hd : d = true
@@ -996,6 +968,25 @@ theorem mem_difference (a b : List String) (x : String) :
     · exact Or.inr h
     · exact Or.inl h
 
+theorem mem_dedupStr (l : List String) (x : String) : x ∈ dedupStr l ↔ x ∈ l := by
+  induction l with
+  | nil => simp [dedupStr]
+  | cons y ys ih =>
+    simp only [dedupStr]
+    split
+    · rename_i hc
+      simp only [List.contains_eq_mem, decide_eq_true_eq] at hc
+      simp only [ih, List.mem_cons]
+      constructor
+      · exact Or.inr
+      · rintro (h | h)
+        · rw [h]; exact hc
+        · exact h
+    · simp [ih]
+
+theorem mem_subtract (a b : List String) (x : String) : x ∈ subtract a b ↔ x ∈ a ∧ x ∉ b := by
+  simp [subtract, mem_sortStr, mem_dedupStr, List.mem_filter]
+
 theorem mem_signersOf (s : State) (t : Addr) (id : Nat) (o : String) :
     o ∈ signersOf s t id ↔ ∃ p ∈ s.results, p.2.taskAddr = t ∧ p.2.id = id ∧ p.2.sig.isSome = true ∧ p.2.op = o := by
   simp only [signersOf, mem_sortStr, List.mem_map, List.mem_filter, Bool.and_eq_true, beq_iff_eq]
@@ -1007,7 +998,7 @@ theorem mem_signersOf (s : State) (t : Addr) (id : Nat) (o : String) :
 
 theorem statTask_spec (s : State) (pw : Powers) (t t' : Task) (h : statTask s pw t = some t') :
     t'.signed = signersOf s t.taskAddr t.id ∧ t'.signed ≠ [] ∧
-    t'.noSigned = difference t.optIn t'.signed ∧
+    t'.noSigned = subtract t.optIn t'.signed ∧
     t'.powers = t'.signed.map (fun o => (o, KV.getD pw.active (avsAddrOfTask s t.taskAddr, o) 0)) ∧
     t'.totalPower = KV.getD pw.avsTotal (avsAddrOfTask s t.taskAddr) 0 ∧
     t'.optIn = t.optIn ∧ t'.taskAddr = t.taskAddr ∧ t'.id = t.id ∧ t'.startingEpoch = t.startingEpoch ∧
@@ -1023,33 +1014,55 @@ theorem statTask_spec (s : State) (pw : Powers) (t t' : Task) (h : statTask s pw
 
 /-! ## the statistics loop as a whole -/
 
-theorem statGo_spec (s : State) (pw : Powers) (l tasks tasks' : List ((Addr × Nat) × Task))
-    (hnd : KV.NoDup tasks) (hl : (l.map (·.1)).Nodup) (h : statGo s pw l tasks = some tasks') :
-    KV.NoDup tasks' ∧
-    (∀ kt ∈ l, ∃ t', statTask s pw kt.2 = some t' ∧ KV.find? tasks' kt.1 = some t') ∧
-    (∀ k, k ∉ l.map (·.1) → KV.find? tasks' k = KV.find? tasks k) := by
+theorem statGo_spec (s : State) (pw : Powers) (l tasks : List ((Addr × Nat) × Task))
+    (hnd : KV.NoDup tasks) (hl : (l.map (·.1)).Nodup) :
+    KV.NoDup (statGo s pw l tasks) ∧
+    (∀ kt ∈ l, ∀ t', statTask s pw kt.2 = some t' → KV.find? (statGo s pw l tasks) kt.1 = some t') ∧
+    (∀ kt ∈ l, statTask s pw kt.2 = none → KV.find? (statGo s pw l tasks) kt.1 = KV.find? tasks kt.1) ∧
+    (∀ k, k ∉ l.map (·.1) → KV.find? (statGo s pw l tasks) k = KV.find? tasks k) := by
   induction l generalizing tasks with
-  | nil =>
-    simp only [statGo, Option.some.injEq] at h
-    subst h
-    exact ⟨hnd, by simp, fun _ _ => rfl⟩
+  | nil => exact ⟨hnd, by simp, by simp, fun _ _ => rfl⟩
   | cons kt rest ih =>
     obtain ⟨k, t⟩ := kt
     simp only [List.map_cons, List.nodup_cons] at hl
-    simp only [statGo] at h
     cases hs : statTask s pw t with
-    | none => simp [hs] at h
+    | none =>
+      simp only [statGo, hs]
+      obtain ⟨g1, g2, g2', g3⟩ := ih tasks hnd hl.2
+      refine ⟨g1, ?_, ?_, ?_⟩
+      · intro kt hkt t' ht'
+        simp only [List.mem_cons] at hkt
+        rcases hkt with hkt | hkt
+        · subst hkt; rw [hs] at ht'; cases ht'
+        · exact g2 kt hkt t' ht'
+      · intro kt hkt hn
+        simp only [List.mem_cons] at hkt
+        rcases hkt with hkt | hkt
+        · subst hkt; exact g3 k hl.1
+        · exact g2' kt hkt hn
+      · intro k' hk'
+        simp only [List.map_cons, List.mem_cons, not_or] at hk'
+        exact g3 k' hk'.2
     | some t' =>
-      simp only [hs] at h
-      obtain ⟨g1, g2, g3⟩ := ih (KV.set tasks k t') (KV.noDup_set _ _ _ hnd) hl.2 h
-      refine ⟨g1, ?_, ?_⟩
-      · intro kt hkt
+      simp only [statGo, hs]
+      obtain ⟨g1, g2, g2', g3⟩ := ih (KV.set tasks k t') (KV.noDup_set _ _ _ hnd) hl.2
+      refine ⟨g1, ?_, ?_, ?_⟩
+      · intro kt hkt t'' ht''
         simp only [List.mem_cons] at hkt
         rcases hkt with hkt | hkt
         · subst hkt
-          refine ⟨t', hs, ?_⟩
+          rw [hs] at ht''
+          cases ht''
           rw [g3 k hl.1]; exact KV.find?_set_same _ _ _
-        · exact g2 kt hkt
+        · exact g2 kt hkt t'' ht''
+      · intro kt hkt hn
+        simp only [List.mem_cons] at hkt
+        rcases hkt with hkt | hkt
+        · subst hkt; rw [hs] at hn; cases hn
+        · rw [g2' kt hkt hn]
+          have hne : kt.1 ≠ k := by
+            intro e; exact hl.1 (e ▸ List.mem_map.2 ⟨kt, hkt, rfl⟩)
+          exact KV.find?_set_other _ _ _ _ hne
       · intro k' hk'
         simp only [List.map_cons, List.mem_cons, not_or] at hk'
         rw [g3 k' hk'.2]; exact KV.find?_set_other _ _ _ _ hk'.1
@@ -1059,22 +1072,17 @@ theorem dueTasks_nodup (s : State) (id : String) (n : Int) (hnd : KV.NoDup s.tas
   unfold dueTasks
   exact List.Nodup.sublist (List.Sublist.map _ List.filter_sublist) hnd
 
-/-- AfterEpochEnd as a whole: when it does not panic, the record of every task whose statistical
-period ends with this epoch (and that has a stored result) is exactly what `statTask` computes from
-the state before the hook, and every other task is untouched. -/
-theorem epochEnd_spec (s s' : State) (id : String) (n : Int) (pw : Powers) (hnd : KV.NoDup s.tasks)
-    (h : epochEnd s id n pw = (s', "ok")) :
-    KV.NoDup s'.tasks ∧
-    (∀ kt ∈ dueTasks s id n, ∃ t', statTask s pw kt.2 = some t' ∧ KV.find? s'.tasks kt.1 = some t') ∧
+/-- AfterEpochEnd as a whole: the record of every task whose statistical period ends with this epoch
+and that has a stored signed result is exactly what `statTask` computes from the state before the
+hook; a due task without any signed result is skipped; every other task is untouched. -/
+theorem epochEnd_spec (s : State) (id : String) (n : Int) (pw : Powers) (hnd : KV.NoDup s.tasks) :
+    let s' := (epochEnd s id n pw).1
+    (epochEnd s id n pw).2 = "ok" ∧ KV.NoDup s'.tasks ∧
+    (∀ kt ∈ dueTasks s id n, ∀ t', statTask s pw kt.2 = some t' → KV.find? s'.tasks kt.1 = some t') ∧
+    (∀ kt ∈ dueTasks s id n, statTask s pw kt.2 = none → KV.find? s'.tasks kt.1 = KV.find? s.tasks kt.1) ∧
     (∀ k, k ∉ (dueTasks s id n).map (·.1) → KV.find? s'.tasks k = KV.find? s.tasks k) := by
-  unfold epochEnd at h
-  cases hg : statGo s pw (dueTasks s id n) s.tasks with
-  | none => simp [hg] at h
-  | some tasks =>
-    simp only [hg] at h
-    have hs : s' = { s with tasks := tasks } := (Prod.mk.inj h).1.symm
-    subst hs
-    exact statGo_spec s pw _ _ _ hnd (dueTasks_nodup s id n hnd) hg
+  have h := statGo_spec s pw (dueTasks s id n) s.tasks hnd (dueTasks_nodup s id n hnd)
+  exact ⟨rfl, h⟩
 
 def TasksNoDup (s : State) : Prop := KV.NoDup s.tasks
 
@@ -1097,10 +1105,7 @@ theorem tasksNoDup_step (s : State) (o : Op) (hi : TasksNoDup s) : TasksNoDup (s
     | challenge c => show KV.NoDup (challenge s c).1.tasks; rw [(challenge_frame s c).2.2.2.2.2.2.1]; exact hi
     | epochEnd id n pw =>
       show KV.NoDup (epochEnd s id n pw).1.tasks
-      unfold epochEnd
-      cases hg : statGo s pw (dueTasks s id n) s.tasks with
-      | none => exact hi
-      | some tasks => exact (statGo_spec s pw _ _ _ hi (dueTasks_nodup s id n hi) hg).1
+      exact (statGo_spec s pw _ _ hi (dueTasks_nodup s id n hi)).1
 
 theorem tasksNoDup_run (ops : List Op) (s : State) (hi : TasksNoDup s) : TasksNoDup (run s ops) := by
   induction ops generalizing s with
